@@ -148,14 +148,17 @@ def run_check(prop_id, tier, seed, procs=None, only=None):
         rdir = os.path.join(ROOT, 'replays', prop_id)
         os.makedirs(rdir, exist_ok=True)
         # one VIOLATION line per distinct obligation family, at most 8 replays
-        seen = set()
+        fams = {}
         for o in new_viol:
-            fam = re.sub(r'\d+', '#', o['name'])
-            if fam in seen and len(seen) >= 1 and nviol >= 8:
-                continue
-            seen.add(fam)
-            if nviol >= 8:
-                break
+            fams.setdefault(re.sub(r'\d+', '#', o['name']), []).append(o)
+        order = []
+        depth = 0
+        while len(order) < 8 and any(len(v) > depth for v in fams.values()):
+            for v in fams.values():
+                if len(v) > depth and len(order) < 8:
+                    order.append(v[depth])
+            depth += 1
+        for o in order:
             nviol += 1
             path = os.path.join(rdir, _safe(o['name']) + '.json')
             case = None
